@@ -35,6 +35,11 @@ func genTqCase(r *Rng, c *Ctx, prop string) tqCase {
 		j := r.Intn(i + 1)
 		tc.Adds[i], tc.Adds[j] = tc.Adds[j], tc.Adds[i]
 	}
+	if r.Chance(50) {
+		for i := 0; i < tc.N; i++ {
+			tc.Sizes = append(tc.Sizes, 1+r.Intn(9))
+		}
+	}
 	failing := prop == "C15" || r.Chance(70)
 	for i := 0; i < tc.N; i++ {
 		var sc []string
@@ -104,6 +109,33 @@ func genTqCase(r *Rng, c *Ctx, prop string) tqCase {
 		}
 		// the call that carries object 0 for the last time allowed fails
 		d.Calls[d.MaxRetries] = Pick(r, []string{"429", "500", "429"})
+		return d
+	}
+	if r.Chance(10) {
+		// directed: ONE batch answer that mixes every per-object verdict — expired actions (retried at
+		// once), omitted objects, errors, missing actions, duplicates — over objects of different sizes
+		// (a batch is sorted by descending size, so every relative order of the verdicts occurs)
+		d := tqCase{N: 2 + r.Intn(4), BatchSize: 100, MaxRetries: Pick(r, []int{1, 2, 3}), MaxDelay: 0, Workers: 1 + r.Intn(3), Upload: r.Chance(30)}
+		verdicts := []string{"expired", "expired", "omit", "omit", "error", "noaction", "dup:ok", "action:retriable", "action:ok"}
+		for i := 0; i < d.N; i++ {
+			d.Adds = append(d.Adds, i)
+			v := Pick(r, verdicts)
+			if i == 0 {
+				v = "expired"
+			} else if i == 1 {
+				v = Pick(r, []string{"omit", "omit", "error", "noaction"})
+			}
+			sc := []string{v}
+			if v == "expired" || v == "action:retriable" {
+				sc = append(sc, Pick(r, []string{"action:ok", "action:ok", "omit", "expired"}), "action:ok")
+			}
+			d.Obj = append(d.Obj, sc)
+			d.Sizes = append(d.Sizes, 1+r.Intn(9))
+		}
+		for k := 0; k < 8; k++ {
+			d.Calls = append(d.Calls, "200")
+			d.Unknown = append(d.Unknown, false)
+		}
 		return d
 	}
 	if prop == "C15" && r.Chance(12) {
